@@ -346,3 +346,59 @@ Example C01_ids_both_views_finalize :
   v_mhpc (s_votes sA) = 5 /\ v_mhpc (s_votes sC) = 3 /\ firstn 8 TA = firstn 8 TC /\ nth_error TA 8 <> nth_error TC 8 /\
   prefix (firstn 3 TC) (firstn 5 TA).
 Proof. pose proof SafetyIdsExamples.C01_ids_both_views_finalize as H. tauto. Qed.
+
+(* ------------------------------------------------------------------ final round: fork-params over blocks with identity, glue for class 22 *)
+From LE Require Import BFT.CheckUniSound BFT.SafetyIdsDynExamples Corr.C01.
+From LE Require BFT.EndToEndIds.
+
+(* parameter changes below the fork are harmless also over blocks with identity.  PARTIAL: the premise [tfork_params] (every window
+   height at or above a height where two chains of the universe differ -- in tuple OR id -- is governed by vstar/pcstar/pvstar) *)
+Theorem C01_dynamic_safety_ids_fork_params_partial :
+  forall (batch : nat) (gh : N) (c : pchange) (s0 : store) (TU : tchain -> Prop)
+         (vstar : list (addr * N)) (pcstar pvstar : N) (byz : list addr),
+  (0 < batch)%nat -> init_store batch gh c = Ok s0 ->
+  tuniverseD_decl batch gh s0 TU ->
+  tfork_params batch gh s0 TU vstar pcstar pvstar ->
+  (forall v, In v (map fst vstar) -> ~ In v byz -> thonest TU v) ->
+  total_weight vstar + wsum vstar byz < pcstar + pvstar ->
+  forall T1 T2 s1 s2 h1 h2, TU T1 -> TU T2 ->
+    run_blocks batch s0 (untag T1) = Ok s1 -> run_blocks batch s0 (untag T2) = Ok s2 ->
+    gh < h1 <= v_mhpc (s_votes s1) -> gh < h2 <= v_mhpc (s_votes s2) ->
+    prefix (firstn (N.to_nat (h1 - gh)) T1) (firstn (N.to_nat (h2 - gh)) T2) \/
+    prefix (firstn (N.to_nat (h2 - gh)) T2) (firstn (N.to_nat (h1 - gh)) T1).
+Proof. exact SafetyIds.C01_dynamic_safety_ids_fork_params_partial. Qed.
+
+(* the oracle with the general bound prevoteThr + precommitThr > W + f *)
+Theorem C01_texamine_safe_bound : forall batch gh c (T1 T2 : tchain), (0 < batch)%nat -> NoDup (map fst (c_vals c)) ->
+  let v := texamine batch gh c T1 T2 in
+  vd_valid v = true -> vd_static v = true ->
+  total_weight (c_vals c) + tbyz_weight (c_vals c) [T1; T2] < c_pc c + (total_weight (c_vals c) * 2 / 3 + 1) ->
+  vd_safe v = true.
+Proof. intros batch gh c T1 T2 Hb Hn. exact (texamine_safe_bound batch Hb gh c T1 T2 Hn). Qed.
+
+(* GLUE: the correspondence evaluator cannot return class 22 (violation) on a universe without parameter changes, whatever the
+   observations: 20/21/22 are only reached when the implementation's observations equal the model's on both chains, the oracle is
+   then Universe.texamine on the model, and C01_texamine_safe_bound (i.e. C01_static_safety_ids) applies.  For universes whose
+   COMMON PREFIX carries changes, class 22 rests on C01_dynamic_safety_ids_fork_params_partial, whose premise [tfork_params] is not
+   decided by the evaluator (no glue lemma there). *)
+Theorem C01_check_uni_static_not_22 :
+  forall batch gh c common a b initok obsA obsB idsC idsA idsB,
+  (0 < batch)%nat -> NoDup (map fst (c_vals c)) ->
+  static_chain (common ++ a) = true -> static_chain (common ++ b) = true ->
+  check_uni (batch, gh, c, common, a, b, initok, obsA, obsB, idsC, idsA, idsB) <> 22.
+Proof. exact check_uni_static_not_22. Qed.
+
+(* further non-vacuity: by-ids premises; a tagged universe with a real parameter change satisfying the tagged QI premise; tagged
+   node-level histories with a forged twin (blk_of 204 = blk_of 4) *)
+Example C01_by_ids_hypotheses_satisfiable :
+  ids_determine_history TU1 /\ (forall v, In v (map fst (c_vals Example.ex_c)) -> ~ In v [4] -> thonest_ids TU1 v) /\ ~ thonest_ids TU1 4.
+Proof. exact SafetyIdsExamples.C01_by_ids_hypotheses_satisfiable. Qed.
+Example C01_tagged_changed_prefix_universe_satisfies_TQI : TQI_model_decl 4 0 s0d TUd.
+Proof. exact tagged_changed_prefix_universe_satisfies_TQI. Qed.
+Example C01_nodes_ids_hypotheses_satisfiable :
+  EndToEndIds.linked_run 4 Example.ex_s0 TU1 EndToEndIds.NodeIdsExample.blk_of (EndToEndIds.F.init 0) EndToEndIds.NodeIdsExample.ops1 /\
+  EndToEndIds.linked_run 4 Example.ex_s0 TU1 EndToEndIds.NodeIdsExample.blk_of (EndToEndIds.F.init 0) EndToEndIds.NodeIdsExample.ops2 /\
+  EndToEndIds.F.fin (EndToEndIds.F.run (EndToEndIds.F.init 0) EndToEndIds.NodeIdsExample.ops1) = 5 /\
+  EndToEndIds.F.fin (EndToEndIds.F.run (EndToEndIds.F.init 0) EndToEndIds.NodeIdsExample.ops2) = 5 /\
+  EndToEndIds.NodeIdsExample.blk_of 204 = EndToEndIds.NodeIdsExample.blk_of 4.
+Proof. pose proof EndToEndIds.NodeIdsExample.C01_nodes_ids_hypotheses_satisfiable as H. tauto. Qed.
